@@ -190,8 +190,12 @@ public:
       return lin_t(z_number(0));
     if (k == 6)
       return lin_t(g.ivar()); // symbolic offset
-    if (k == 7)
-      return lin_t(z_number(4), g.ivar());
+    if (k == 7) {
+      // a*i + c with a constant term as well (the variable is often exactly 0: the offset is
+      // then non-zero only through c)
+      static const int64_t cs[] = {0, 4, 8, -4};
+      return lin_t(z_number(4), g.ivar()) + lin_t(z_number(cs[t.pick(4)]));
+    }
     return lin_t(z_number(offs[k % 6]));
   }
   // the scalar kind stored in region r (unknown regions: decoded)
